@@ -218,3 +218,27 @@ M("C18-scalar-count-minus-one", {"C18": "C18.R2"}, (_S, "        num_occurrences
 M("C18-matrix-first-times-count", {"C18": "C18.R2"}, (_S, "        return np.sum(lambda_parameter[rows, cols])", "        return lambda_parameter[rows[0], cols[0]] * len(rows)"))
 M("C18-twin-numbers-real", {"C18": None}, (_S, "    if np.ndim(lambda_parameter) == 0:", "    if isinstance(lambda_parameter, numbers.Real):"), (_S, "import math\n", "import math\nimport numbers\n"))
 M("C18-twin-isscalar", {"C18": None}, (_S, "    if np.ndim(lambda_parameter) == 0:", "    if np.isscalar(lambda_parameter):"))
+
+# ---------------------------------------------------------------- C15
+_L = "likelihood.py"
+M("C15-bare-njit", {"C15": "C15.R1"}, (_L, "@numba_guard.njit()\ndef point_log_likelihood_fast", "@numba_guard.njit\ndef point_log_likelihood_fast"))
+M("C15-fastmath", {"C15": "C15.R1"}, (_L, "@numba_guard.njit()\ndef point_log_likelihood_fast", "@numba_guard.njit(fastmath=True)\ndef point_log_likelihood_fast"))
+M("C15-error-model", {"C15": "C15.R1"}, (_K, "@numba_guard.njit(parallel=False)", "@numba_guard.njit(parallel=False, error_model='numpy')"))
+M("C15-noop-drops-kwargs", {"C15": "C15.R1"}, ("numba_guard.py", "    def wrapped(*args, **kwargs):\n        return func(*args, **kwargs)\n", "    def wrapped(*args, **kwargs):\n        return func(*args)\n"))
+M("C15-fake-prange-single-arg", {"C15": "C15.R1"}, ("numba_guard.py", "    return range(*args, **kwargs)", "    return range(args[0])"))
+M("C15-fallback-selection-swapped", {"C15": "C15.R1"}, ("numba_guard.py", "else:\n    prange = fake_prange\n    njit = fake_njit", "else:\n    prange = fake_prange\n    njit = noop_decorator"))
+M("C15-dp-parallel", {"C15": "C15.R2"}, (_K, "@numba_guard.njit(parallel=False)", "@numba_guard.njit(parallel=True)"))
+M("C15-dp-prange-inner", {"C15": ["C15.R2", "C15.R3"]}, (_K, "        for cluster in range(num_clusters):", "        for cluster in numba_guard.prange(num_clusters):"))
+M("C15-prange-reduction", {"C15": "C15.R3"},
+  (_L, "    result = np.zeros(shape=(num_input_points, num_clusters), dtype=np.float64)\n", "    result = np.zeros(shape=(num_input_points, num_clusters), dtype=np.float64)\n    total = 0.0\n"),
+  (_L, "                num_data_series\n            )\n    return result", "                num_data_series\n            )\n            total += result[point, cluster]\n    return result - total / result.size + total / result.size"))
+M("C15-prange-shared-row", {"C15": "C15.R3"}, (_L, "            result[point, cluster] = point_log_likelihood_fast(", "            result[cluster, point] = point_log_likelihood_fast("))
+M("C15-prange-scratch-outside", {"C15": "C15.R3"},
+  (_L, "    for point in numba_guard.prange(num_input_points):\n        for cluster in range(num_clusters):\n            result[point, cluster] = point_log_likelihood_fast(\n                stacked_training_data[point, :],",
+   "    row = stacked_training_data[0, :]\n    for point in numba_guard.prange(num_input_points):\n        row = stacked_training_data[point, :]\n        for cluster in range(num_clusters):\n            result[point, cluster] = point_log_likelihood_fast(\n                row,"))
+M("C15-kernel-reads-one-past", {"C15": "C15.R4", "C01": ["C01.R7"]}, (_K, "    for i in range(num_points-1):\n        path[i+1] = path_matrix[i, path[i]]", "    for i in range(num_points):\n        path[i+1] = path_matrix[i, path[i]]"))
+M("C15-kernel-K-from-data", {"C15": "C15.R4"}, (_L, "    num_clusters = model.arguments.num_clusters\n    mus", "    num_clusters = model.arguments.num_clusters + 1\n    mus"))
+M("C15-kernel-mutable-global", {"C15": "C15.R5"},
+  (_L, "from fast_ticc import numba_guard\n", "from fast_ticc import numba_guard\n\nSCALE = {'half': 0.5}\n"),
+  (_L, "    lle = 0.5 * (log_det_theta", "    lle = SCALE['half'] * (log_det_theta"))
+M("C15-twin-cache", {"C15": None}, (_L, "@numba_guard.njit()\ndef point_log_likelihood_fast", "@numba_guard.njit(cache=False)\ndef point_log_likelihood_fast"))
